@@ -365,6 +365,14 @@ func c08() *core.Check {
 			s := c.In
 			w.Eval(1)
 			b, f := li.IsSQLi(s)
+			if len(s) >= 64 {
+				// asked again at once: the pair must be the same pair (a memo for
+				// repeated inputs that stores more, or less, than it hands out)
+				if b2, f2 := li.IsSQLi(s); b2 != b || f2 != f {
+					w.Violate("inconsistent-pair", fmt.Sprintf("IsSQLi returned (%v,%q) and, asked again at once, (%v,%q)", b, f, b2, f2))
+					return
+				}
+			}
 			if !b {
 				if f != "" {
 					w.Violate("false-with-fingerprint", fmt.Sprintf("IsSQLi returned (false,%q)", f))
